@@ -303,6 +303,14 @@ func runC18(b *runner.Batch) {
 		}
 		boundary = append(boundary, strings.Join(labels, ".")+".com")
 	}
+	// one constraint violated (or met exactly) in one label of an otherwise valid four-label name, at every position
+	for pos := 0; pos < 4; pos++ {
+		for _, lab := range []string{rep("x", 63), rep("x", 64), "", "-x", "x-", "x-y", "x--y", "X", "xY", "x_y", "9x", "99", "x9", rep("x", 16), rep("x", 17), "x" + rep("9", 15), "x" + rep("9", 16), "x y", "x+", "é"} {
+			ls := []string{"ab", "cd", "ef", "com"}
+			ls[pos] = lab
+			boundary = append(boundary, strings.Join(ls, "."))
+		}
+	}
 	boundary = append(boundary, strings.Repeat("a.", 126)+"com", strings.Repeat("a.", 127)+"com", strings.Repeat("a.", 128)+"com", strings.Repeat("a.", 300)+"com")
 	if k == 0 {
 		for _, s := range boundary {
